@@ -59,6 +59,40 @@ def doc_note(prog, an, rep):
                  '; '.join(diff))
 
 
+def _record_fields(prog, m, tname, seen=()):
+    """Field names, in constructor order, of a record type of module m:
+    NAME = namedtuple('NAME', [...]) / 'a b c', a typing.NamedTuple class or
+    a @dataclass class (the fields of its dataclass bases first)."""
+    v = m.consts.get(tname)
+    if isinstance(v, ast.Call) and src(v.func).endswith('namedtuple') and \
+            len(v.args) >= 2:
+        try:
+            f_ = const_value(v.args[1])
+        except AnalysisError:
+            return None
+        if isinstance(f_, str):
+            f_ = f_.replace(',', ' ').split()
+        return list(f_)
+    k = prog.classes.get(m.name + '.' + tname)
+    if k is None or tname in seen:
+        return None
+    own = [st.target.id for st in k.node.body
+           if isinstance(st, ast.AnnAssign) and
+           isinstance(st.target, ast.Name)]
+    bases = [src(b) for b in k.node.bases]
+    if any(b.endswith('NamedTuple') for b in bases):
+        return own
+    if any('dataclass' in src(d) for d in k.node.decorator_list):
+        out = []
+        for b in bases:
+            inherited = _record_fields(prog, m, b, seen + (tname,))
+            if inherited is None:
+                return None
+            out += [x for x in inherited if x not in out]
+        return out + [x for x in own if x not in out]
+    return None
+
+
 def registry(prog, an, rep):
     R = 'C07.REG.flags'
     opts, cmds = common.reactor_registry(prog, an)
@@ -90,14 +124,24 @@ def registry(prog, an, rep):
     # Option / Command tuples: field order agrees between definition and
     # the constructor calls inside the Reactor
     m = prog.by_name[RE]
+    # the reactor tells an option from a command by its type: neither type
+    # is a kind of the other
+    ko, kc = (prog.classes.get(RE + '.' + t) for t in ('Option', 'Command'))
+    rep.evaluated()
+    rep.check(ko is None or kc is None or not (
+        prog.is_subclass(ko, kc.qname) or prog.is_subclass(kc, ko.qname)), R,
+        'Option and Command are unrelated types', m.path,
+        'an Option is a Command (or the reverse): isinstance() no longer '
+        'tells them apart and the reactor runs one as the other')
     for tname in ('Option', 'Command'):
-        v = m.consts.get(tname)
-        fields = const_value(v.args[1]) if isinstance(v, ast.Call) else None
-        want = ['handler', 'default', 'help', 'privileged', 'authored'] \
-            if tname == 'Option' else ['handler', 'help', 'privileged',
-                                       'authored']
-        rep.check(fields == want, R, 'reactor.%s fields' % tname,
+        fields = _record_fields(prog, m, tname)
+        need = {'handler', 'default', 'help', 'privileged', 'authored'} \
+            if tname == 'Option' else {'handler', 'help', 'privileged',
+                                       'authored'}
+        rep.check(fields is not None and set(fields) == need, R,
+                  'reactor.%s fields' % tname,
                   m.path, '%s fields are %s' % (tname, fields))
+        want = fields or []
         k = prog.cls(RE + '.Reactor')
         for meth in k.methods.values():
             for call in prog.calls_in(meth):
